@@ -10,14 +10,14 @@ TECH = "deterministic simulation with fault injection (seeded search over schedu
 
 # id -> (engine/world, category, claim text, level note)
 CLAIMED = {
-    "C01": ("pt", "exploration",
-            "Seeded simulated runs of real Locomotive/Consist objects: the simulator owns the clock (dt sequence), picks each demand from the limits published in the same tick, crashes and restores the object (yaml/json/bincode, string and faulty-reader channels) between ticks, and an independent energy ledger (its accumulators are never restored) is compared after every accepted tick, per step and cumulatively, incl. SOC and consist sums; the shipped walk() loops are run over the accepted demands and must reproduce the trajectory bit for bit. Sampling, not proof: a clean batch is evidence.",
+    "C01": ("pt+cmp", "exploration",
+            "Seeded simulated runs of real Locomotive/Consist objects (and, in 6 % of the runs, of the battery component driven alone with charge / discharge buffers - world cmp; one run in seven uses steps 1.5-12 x coarser than the derating bound, so that an accepted step carries a battery across its SOC window): the simulator owns the clock (dt sequence), picks each demand from the limits published in the same tick, crashes and restores the object (yaml/json/bincode, string and faulty-reader channels) between ticks, and an independent energy ledger (its accumulators are never restored) is compared after every accepted tick, per step and cumulatively, incl. SOC and consist sums; the shipped walk() loops are run over the accepted demands and must reproduce the trajectory bit for bit. Sampling, not proof: a clean batch is evidence.",
             "Trusted: the reference ledger (~150 lines), 1e-9 relative tolerance, generator domain of DESIGN 2.3; HybridLoco and catenary are outside the property."),
-    "C08": ("pt", "exploration",
-            "Same simulated runs as C01 with engine on/off patterns, regeneration, light regeneration around the aux level, map extremes and out-of-grid battery temperatures; second-law inequalities per tick on reported and on effective (out/in) efficiencies, monotone cumulative fuel/loss/dyn-brake energies across every prefix and across every crash/restore (previous values kept by the reference, not by the object).",
+    "C08": ("pt+cmp", "exploration",
+            "Same simulated runs as C01 (incl. the battery driven alone, world cmp) with engine on/off patterns, regeneration, light regeneration around the aux level, map extremes and out-of-grid battery temperatures; second-law inequalities per tick on reported and on effective (out/in) efficiencies, monotone cumulative fuel/loss/dyn-brake energies across every prefix and across every crash/restore (previous values kept by the reference, not by the object).",
             "Trusted: inequality tolerance 1e-9 relative + 1e-6 W; map values in (0,1]."),
-    "C09": ("pt", "exploration",
-            "Closed-loop adversarial client: each tick the driver reads the limits just published and asks for exactly / just below / just above them, rides the transient limit upward, parks SOC in the derating ramps, retries lower after a refusal, and issues over-limit requests that must be refused; crash/restore between ticks because the transient limit depends on restored previous shaft power (the reference keeps its own copy).",
+    "C09": ("pt+cmp", "exploration",
+            "Closed-loop adversarial client (85 % of the runs on locomotives / consists, 15 % on the battery component driven alone - world cmp - because charge / discharge buffers, which the statement quantifies over, are only reachable through the component API: the locomotive models pass None): each tick the driver reads the limits just published and asks for exactly / just below / just above them, rides the transient limit upward, parks SOC in the derating ramps, retries lower after a refusal, and issues over-limit requests that must be refused; crash/restore between ticks because the transient limit depends on restored previous shaft power (the reference keeps its own copy).",
             "Trusted: the code's own 1e-3 acceptance tolerance is part of the oracle; dt bounded by the largest step for which linear derating can hold the SOC window (reported in evidence)."),
     "C10": ("pt", "exploration",
             "Consists of 1-8 generated units of mixed kind, rating, SOC and order under both shipped policies, demands from full dynamic braking to full traction, asymmetric warm-up histories, depleted/full batteries among healthy units; split reference evaluated on every accepted consist tick; panics in the split code are violations.",
@@ -38,7 +38,7 @@ CLAIMED.update({
             "Differential, bit-exact: every seeded partition of a route into extend calls (with empty extensions and yaml/bincode reloads in between) yields a PathTpc equal to the one-call build; reference: link points at cumulative lengths, elevation at every breakpoint and 3 interior positions per segment equal to the walk over the route's own elevation points, grades = slopes, cumulative curve resistance = documented three-branch formula, catenary limits shifted, count bookkeeping; non-contiguous / unreal extensions must be refused; panics are violations. Operation history only (DESIGN 5).",
             "Trusted: geometry reference (~120 lines), 1e-9 relative; nothing is promised about a path after a refused extension."),
     "C16": ("val", "fault_enumeration",
-            "For every generated valid network every rule of the statement is broken in isolation at every link where that is expressible (58 rule-breaking kinds incl. out-of-range references, NaN / negative / zero values), 10 rule-keeping edits are applied the same way, and the verdict of validate() - and on a seeded sample of from_yaml / from_json / from_reader under short reads, EINTR, hard errors and early EOF / from_file on real files / from_file on a hand-written legacy layout - is compared with an independent reference validator (accepted <=> consistent); a panic is a violation and does not stop the enumeration.",
+            "For every generated valid network every rule of the statement is broken in isolation at every link where that is expressible (63 rule-breaking kinds incl. out-of-range references, references dropped on one side only, NaN / negative / zero values), 13 rule-keeping edits are applied the same way, and the verdict of validate() - and on a seeded sample of from_yaml / from_json / from_reader under short reads, EINTR, hard errors and early EOF / from_file on real files / from_file on a hand-written legacy layout - is compared with an independent reference validator (accepted <=> consistent); a panic is a violation and does not stop the enumeration.",
             "Trusted: reference validator (~170 lines) and its reading of 'well-formed and non-overlapping' (DESIGN C16); the reference is itself checked against each mutation's label and a disagreement is a harness error, not a verdict."),
 })
 
@@ -53,7 +53,7 @@ CLAIMED.update({
             "Same runs; per executed step train wheel power = consist delivered power and the cumulative wheel energies (net, positive, negative) agree between train and consist; at the end of every run that ended Ok consist totals = sums over locomotives and the trip-level getters = totals x the documented annualisation factor (simulation_days varied); crash/restore re-initialises the three nested levels separately.",
             "Trusted: 1e-9 relative (1e-8 on instantaneous power)."),
     "C12": ("trn", "exploration",
-            "Same runs incl. links much shorter than one step of travel, irregular set-speed time stamps, stops at the end of authority and restarts, crash/restore; kinematic reference per executed step (time, front advance = dt x mean speed, rear = front - length, total distance, front segment / in-segment offset).",
+            "Same runs incl. links much shorter than one step of travel, user-supplied initial front positions beyond the train length (20 % of the cases), irregular set-speed time stamps, stops at the end of authority and restarts, crash/restore; kinematic reference per executed step (time, front advance = dt x mean speed, rear = front - length, total distance, front segment / in-segment offset).",
             "Trusted: kinematic reference (~50 lines); offset tolerance 1e-5 m."),
     "C14": ("trn", "exploration",
             "Set-speed runs with generated non-negative traces with irregular time stamps (dt jumps, plateaus, stops, accelerations and brakings beyond what the consist can deliver so both clips bind), driven by the shipped walk() and by simulator steps with crash/restore and interval changes; per step time/speed = trace, pwr_accel, pwr_res, wheel power = clip(inertia + resistance) with clips computed from published consist state only, energies accumulate that power x the trace's own dt.",
@@ -74,13 +74,13 @@ CLAIMED.update({
 
 CLAIMED.update({
     "C18": ("thr", "exploration",
-            "(a) LocomotiveSimulationVec::walk(parallelize=true) through the executor seam under shuttle: batches of 1-12 generated simulations (some failing at a seeded step), 1-16 simulated workers claiming from a shared queue, every simulation step a scheduling point, cancellation after an error; seeded Random and PCT (depth 2-4) schedulers, 24 / 60 schedules per case; oracle bit-exact: every element = its own serial result (or untouched after an error), batch = serial batch, an error names a failing element, inputs unchanged. (b) cases of the worlds trn / dsp / trk / val executed under simulated RandomState keys A, A, B: identical outputs (trace hash over every observed state). (c) the real rayon branch in local pools of 1, 2, 4, 16 threads against the same oracle (observation of uncontrolled threads).",
+            "(a) LocomotiveSimulationVec::walk(parallelize=true) through the executor seam under shuttle: batches of 1-12 generated simulations (some failing at a seeded step), 1-16 simulated workers claiming from a shared queue, every simulation step a scheduling point, cancellation after an error; seeded Random and PCT (depth 2-4) schedulers, 24 / 60 schedules per case; oracle bit-exact: every element = its own serial result (or untouched after an error), batch = serial batch, an error names a failing element, inputs unchanged. (b) cases of the worlds trn / dsp / trk / val executed under simulated RandomState keys A, A, B: identical outputs (trace hash over every observed state). (c) the real rayon branch in local pools of 1, 2, 4, 16 threads against the same oracle (observation of uncontrolled threads). (d) PoolRepeat: cases of the worlds pt / trn / dsp executed outside any pool and inside private rayon pools of 1, 2-4 and 5-16 threads (whatever the library parallelises internally then splits according to that pool size): identical traces. (e) HistoryRepeat: a case executed on a fresh thread, on a thread that has just executed a different case of the same world, and twice on one thread: identical traces (hidden state in statics, thread-locals or caches keyed too coarsely).",
             "Trusted: the executor stub's fidelity to rayon's try_for_each contract (cross-checked by (c)); a failure replays from (case, scheduler seed, iteration count) because shuttle's seeded schedulers are deterministic."),
 })
 
 CLAIMED.update({
     "C17": ("io+pt", "fault_enumeration",
-            "Objects of every storable kind (components, locomotives of each type, consists, locomotive / consist / set-speed / speed-limited simulations, networks, paths, defaults) are built by the generators of the other worlds, run for a seeded number of steps (mid-run, before the first braking step, after a refused step, after the run ended) and stored / reloaded through the simulated storage layer: yaml / json / bincode x string, reader (short reads, EINTR), file channels; faults at EVERY byte offset class (hard error, early EOF, torn prefix at a seeded set of offsets incl. first, last-1, inside a multi-byte scalar) must give an error, never a wrong object or panic. Oracles: reload succeeds; canonical rendering (maps sorted) equal; a second round trip changes nothing; and, for every kind that steps, EVERY step index of a short run is used as a crash point in every format and the resumed run must finish bit-identical with the uninterrupted twin.",
+            "Objects of every storable kind (components, locomotives of each type incl. the shipped hybrid unit, consists, locomotive / consist / set-speed / speed-limited simulations, networks, paths, defaults) are built by the generators of the other worlds, run for a seeded number of steps (mid-run, before the first braking step, after a refused step, after the run ended) and stored / reloaded through the simulated storage layer: yaml / json / bincode x string, reader (short reads, EINTR), file channels; faults at EVERY byte offset class (hard error, early EOF, torn prefix at a seeded set of offsets incl. first, last-1, inside a multi-byte scalar) must give an error, never a wrong object or panic. Oracles: reload succeeds; canonical rendering (maps sorted) equal; a second round trip changes nothing; and, for every kind that steps, EVERY step index of a short run is used as a crash point in every format and the resumed run must finish bit-identical with the uninterrupted twin.",
             "Trusted: canonical rendering through the crate's own yaml serialiser (field-for-field, bit-exact floats); table of skippable fields used to recognise the open bincode finding. Three open findings (bincode + skipped fields, bincode + Location, JSON + non-finite floats)."),
 })
 
